@@ -379,4 +379,51 @@ def openCommand (commandLine : Str) (streams : Nat) (env : List (Str × Str)) : 
 def openList (executable : Str) (args : List Str) (streams : Nat) (env : List (Str × Str)) : Option Exec :=
   openArgv executable args.length (args.map some) streams env
 
+
+/-! ### the Process object: pid and pipe descriptors with 0 meaning "closed" (Process.hpp:151-162)
+
+  `running` = `pid != 0`; `out/err/inp` = `fdStdOutRead/fdStdErrRead/fdStdInWrite != 0`.
+  Kernel calls are assumed to succeed (vfork, execvpe, pipe, waitpid return what POSIX documents
+  for a child that exists); what they deliver is not modelled. -/
+
+structure Proc where
+  running : Bool
+  out : Bool
+  err : Bool
+  inp : Bool
+  deriving Repr, DecidableEq
+
+def Proc.init : Proc := ⟨false, false, false, false⟩
+
+inductive POp where
+  | start                 -- start(command) / start(program, argc, argv)
+  | openp (mask : Nat)    -- open(..., streams)
+  | join
+  | kill
+  | close (mask : Nat)
+  | isRunning
+  | read3 (mask : Nat)    -- read(buffer, length, streams): only the EINVAL decision is modelled
+  | destroy               -- ~Process() followed by Process()
+  deriving Repr, DecidableEq
+
+def bit (mask k : Nat) : Bool := mask / k % 2 == 1
+
+/-- new state and the Boolean the call returns (`start`: pid != 0; `read3`: not EINVAL) -/
+def Proc.step (s : Proc) : POp → Proc × Bool
+  | .start => if s.running then (s, false) else ({ s with running := true }, true)
+  | .openp m =>
+    if s.running then (s, false)
+    else (⟨true, bit m 1, bit m 2, bit m 4⟩, true)
+  | .join => if !s.running then (s, false) else (Proc.init, true)
+  | .kill => if !s.running then (s, false) else (Proc.init, true)
+  | .close m =>
+    ({ s with inp := s.inp && !bit m 4, out := s.out && !bit m 1, err := s.err && !bit m 2 }, true)
+  | .isRunning => (s, s.running)
+  | .read3 m => (s, (bit m 1 && s.out) || (bit m 2 && s.err))
+  | .destroy => (Proc.init, true)
+
+def Proc.run (s : Proc) : List POp → Proc
+  | [] => s
+  | op :: ops => (s.step op).1.run ops
+
 end Nstd.Args
